@@ -917,38 +917,35 @@ class World:
                               f"subscriber was unwritable or failing for such a message in round {self.rounds}; expected {sorted(ekeys)}; events {self.step_events}")
 
     def _check_info(self):
+        """CLIENT_INFO is only an observation channel for "the options take effect as named": every
+        CLIENT_INFO frame received must describe the module as the model knows it after this round.
+        When and how often CLIENT_INFO is published is not part of any statement and is not checked."""
+        by_port = {m.port: m for m in self.mods}
         for m in self.mods:
             if m.client_closed or not m.accepted:
                 continue
-            exp = [a for (t, a) in self.expected_mgr.get(m.idx, []) if t == P.MT_CLIENT_INFO]
-            got = [P.parse_client_info(f.payload) for f in self.step_mgr.get(m.idx, []) if f.msg_type == P.MT_CLIENT_INFO]
-            ce, cg = Counter(a["port"] for a in exp), Counter(g["port"] for g in got)
-            copt = Counter(a["port"] for a in exp if a.get("optional"))
-            if (cg - ce) or ((ce - cg) - copt):
-                self.viol("info/count", f"conn {m.idx}: CLIENT_INFO for ports {[g['port'] for g in got]} received, expected for "
-                          f"{[a['port'] for a in exp]} in round {self.rounds}; events {self.step_events}")
-            for g in got:
-                cands = [a for a in exp if a["port"] == g["port"]]
-                mm = self.mods[cands[0]["c"]]
-                ok = False
-                why = None
-                for a in cands:
-                    bad = []
-                    if mm.mod_id >= 0 and g["mod_id"] != mm.mod_id:
-                        bad.append(("mod_id", mm.mod_id, g["mod_id"]))
-                    if g["name"] != a["name"]:
-                        bad.append(("name", a["name"], g["name"]))
-                    if g["is_logger"] != a["logger"]:
-                        bad.append(("is_logger", a["logger"], g["is_logger"]))
-                    if g["is_unique"] != a["unique"]:
-                        bad.append(("is_unique", a["unique"], g["is_unique"]))
-                    if g["pid"] != a["pid"]:
-                        bad.append(("pid", a["pid"], g["pid"]))
-                    if not bad:
-                        ok = True
-                    why = bad
-                if not ok:
-                    self.viol("info/wrong-description", f"CLIENT_INFO for conn {mm.idx} does not describe it as requested: {why}")
+            for f in self.step_mgr.get(m.idx, []):
+                if f.msg_type != P.MT_CLIENT_INFO:
+                    continue
+                g = P.parse_client_info(f.payload)
+                mm = by_port.get(g["port"])
+                if mm is None or not mm.tracked or not mm.connected:
+                    continue  # manager itself, hostile, refused or departed connections: not specified
+                bad = []
+                if mm.mod_id >= 0 and g["mod_id"] != mm.mod_id:
+                    bad.append(("mod_id", mm.mod_id, g["mod_id"]))
+                if g["name"] != mm.name:
+                    bad.append(("name", mm.name, g["name"]))
+                if g["is_logger"] != int(mm.logger):
+                    bad.append(("is_logger", int(mm.logger), g["is_logger"]))
+                if g["is_unique"] != int(mm.unique):
+                    bad.append(("is_unique", int(mm.unique), g["is_unique"]))
+                if g["pid"] != mm.pid:
+                    bad.append(("pid", mm.pid, g["pid"]))
+                if bad:
+                    self.viol("info/wrong-description", f"CLIENT_INFO for conn {mm.idx} does not describe it as requested "
+                              f"(field, expected, published): {bad}")
+                self.stats["client-info-checked"] += 1
 
     @staticmethod
     def _match_logger_acks(got, exp, own_id):
